@@ -520,6 +520,75 @@ func scIdle(kind string, enc, comp bool) func(x *vs.Exec) {
 	}
 }
 
+// retarget: a reload changes only where a proxy's traffic goes locally (localPort), nothing the server is told about.
+// "A connection made to one proxy's public endpoint is bridged to that proxy's backend and to no other backend":
+// after the reload that is the new backend.
+func scRetarget(kind string) func(x *vs.Exec) {
+	return func(x *vs.Exec) {
+		defer sw.Guard()
+		w := tw.New(x, sw.Opt{AllowPorts: sw.P(20000, 20003), UserConnTimeout: 5, HeartbeatTimeout: -1, TCPMuxPort: muxPort, HTTPSPort: httpsPort})
+		w.StartBackend(8000, "echo")
+		w.StartBackend(8001, "echo")
+		mk := func(local int) v1.ProxyConfigurer {
+			if kind == "stcp" {
+				p := &v1.STCPProxyConfig{}
+				p.Name, p.Type, p.LocalIP, p.LocalPort, p.Secretkey = "p", "stcp", "127.0.0.1", local, "k"
+				return p
+			}
+			p := &v1.TCPProxyConfig{}
+			p.Name, p.Type, p.LocalIP, p.LocalPort, p.RemotePort = "p", "tcp", "127.0.0.1", local, 20000
+			return p
+		}
+		cl := w.StartClient("owner", "", []v1.ProxyConfigurer{mk(8000)}, nil, nil)
+		if !w.AwaitRunning(cl, 30*time.Second, "p") {
+			vs.Fail("setup: proxy not running")
+			return
+		}
+		port := 20000
+		if kind == "stcp" {
+			v := &v1.STCPVisitorConfig{}
+			v.Name, v.Type, v.ServerName, v.SecretKey, v.BindAddr, v.BindPort = "vp", "stcp", "p", "k", "127.0.0.1", 6000
+			w.StartClient("visitor", "", nil, []v1.VisitorConfigurer{v}, nil)
+			vs.Block("visitor-listening", func() bool { return w.H.TCPListenerOn(6000) != nil || x.Now() > 60*time.Second })
+			port = 6000
+		}
+		probe := func(src, tag string) {
+			u, err := w.H.DialFrom(src, fmt.Sprintf("127.0.0.1:%d", port))
+			if err != nil {
+				vs.Fail("retarget/%s %s: dial: %v", kind, tag, err)
+				return
+			}
+			m := []byte("hello-" + tag)
+			u.Write(m)
+			buf := make([]byte, len(m))
+			if _, idle, err := u.ReadFullOrIdle(buf); idle || err != nil {
+				vs.Fail("retarget/%s %s: no echo (idle=%v err=%v)", kind, tag, idle, err)
+			}
+			u.Close()
+		}
+		probe("10.5.1.1:5001", "before")
+		w.Quiesce()
+		n0, n1 := len(w.Backends[8000].Conns), len(w.Backends[8001].Conns)
+		np := mk(8001)
+		np.Complete("")
+		vs.SetInterest(true)
+		if err := cl.Svc.UpdateAllConfigurer([]v1.ProxyConfigurer{np}, nil); err != nil {
+			vs.Fail("reload: %v", err)
+		}
+		time.Sleep(40 * time.Second) // a changed proxy is closed and started again; give the start its retry interval
+		vs.SetInterest(false)
+		if !w.AwaitRunning(cl, 60*time.Second, "p") {
+			vs.Fail("retarget/%s: proxy not running 100 s after the reload", kind)
+		}
+		probe("10.5.1.2:5002", "after")
+		w.Quiesce()
+		if d0, d1 := len(w.Backends[8000].Conns)-n0, len(w.Backends[8001].Conns)-n1; d0 != 0 || d1 != 1 {
+			vs.Fail("retarget/%s: after the reload moved proxy p from local port 8000 to 8001, a user connection reached the old backend %d time(s) and the new backend %d time(s)", kind, d0, d1)
+		}
+		w.StopAll()
+	}
+}
+
 func clipS(b []byte) string {
 	if len(b) > 80 {
 		b = b[len(b)-80:]
@@ -591,6 +660,8 @@ func scenarios() {
 			s.Body = scCross(f[1])
 		case "idle":
 			s.Body = scIdle(f[1], f[2][0] == '1', f[2][1] == '1')
+		case "retarget":
+			s.Body = scRetarget(f[1])
 		case "split":
 			var p int
 			fmt.Sscanf(f[2], "%d", &p)
@@ -607,7 +678,7 @@ func main() {
 	if c == nil {
 		return
 	}
-	c.Rule("E1: real frps + real frpc (+ a real frpc as stcp visitor) on the virtual network and clock. Complete product of proxy kind {tcp, stcp via visitor, tcpmux CONNECT, https SNI} x encryption x compression x bandwidth limit {none, client, server} x PROXY protocol {-, v1, v2} x payload size x content x write chunking x direction x close order (quick: a fully enumerated sub-lattice, thorough: the full lattice), first bytes split at every position, a connection used again after 75 s of silence (kind x encryption x compression), 2 proxies x 2 simultaneous connections under deviation-bounded DFS; non-trivial = distinct end state / observation trace")
+	c.Rule("E1: real frps + real frpc (+ a real frpc as stcp visitor) on the virtual network and clock. Complete product of proxy kind {tcp, stcp via visitor, tcpmux CONNECT, https SNI} x encryption x compression x bandwidth limit {none, client, server} x PROXY protocol {-, v1, v2} x payload size x content x write chunking x direction x close order (quick: a fully enumerated sub-lattice, thorough: the full lattice), first bytes split at every position, a connection used again after 75 s of silence (kind x encryption x compression), a reload that moves a proxy to another local backend (tcp, stcp), 2 proxies x 2 simultaneous connections under deviation-bounded DFS; non-trivial = distinct end state / observation trace")
 	c.Assume("transport dimension kcp/quic/websocket/yamux/TLS is exercised with real sockets in C05/C02 parts, not here")
 	pool := vs.GetPool(c.Workers)
 	var names []string
@@ -663,6 +734,7 @@ func main() {
 			names = append(names, "idle/"+k+"/"+ec)
 		}
 	}
+	names = append(names, "retarget/tcp", "retarget/stcp")
 	maxSplit := drv.Pick(c, 40, 600)
 	for pos := 1; pos <= maxSplit; pos++ {
 		names = append(names, fmt.Sprintf("split/tcpmux/%d", pos), fmt.Sprintf("split/https/%d", pos))
